@@ -74,7 +74,14 @@ class C07World(WalletWorld):
         if len(set(ops)) != len(ops):
             w.violation('duplicate_input', sig, 'inputs %s' % ops)
         eligible = {(u['txid'], u['output_n']) for u in utxos_before}
+        rx0 = getattr(self, 'request_extra', {}) if request == 'send' and stage == 'created' else {}
         for op in ops:
+            if rx0.get('input_arr') == 'spent' and op in wi.acked_spent and op not in eligible:
+                # the caller listed an output the wallet itself had spent, and it was taken
+                w.violation('input_not_eligible', dict(sig, explicit_inputs='spent'),
+                            'explicitly listed input %s:%d was consumed by acknowledged send %s' %
+                            (op[0][:16], op[1], wi.acked_spent[op][0][:16]))
+                continue
             if op not in eligible:
                 w.violation('input_not_eligible', sig,
                             'input %s:%d was not an unspent output of this wallet with >= %d confirmations '
